@@ -8,6 +8,8 @@ from ..sym import show
 from . import c01
 
 EXPLANATION = (
+    'Data: D20.6 every shipped uncertainty block has distinct basis labels naming entries of its library, a square symmetric positive semi-definite matrix sized to the basis, and an RMSE correlation valid wherever a basis entry is. '
+
     "R20.1: in the estimator constructor, under `if lib.uq_contents`, one "
     "complete loop over the caller's mapping stores, for every key with no "
     "filter and no handler, xp[basis.index(key)] = mapping[key] (so an "
@@ -221,3 +223,7 @@ def run(chk, repo, tier):
                    found='UQ: %s; InvCovMat: %s' % (sorted(u), sorted(icm)))
     chk.need('R20.5', nblocks, 3, 'UQ blocks reachable from shipped '
                                   'libraries')
+    # ---- the shipped uncertainty blocks ---------------------------------------
+    from .. import dataaudit
+    dataaudit.uq_consistency(chk, repo, 'D20.6')
+
